@@ -10,6 +10,7 @@ import (
 	"fmt"
 	"io"
 	"net"
+	"strings"
 	"sync"
 	"testing"
 	"time"
@@ -83,9 +84,18 @@ func (s *sink) up() error {
 	if addr == "" {
 		addr = "127.0.0.1:0"
 	}
-	ln, err := net.Listen("tcp", addr)
-	if err != nil {
-		return err
+	// thousands of short-lived connections per minute leave the ephemeral ports in TIME_WAIT for a while: a listen
+	// that finds none free is tried again for up to 90 s (the sockets drain) before the case gives up
+	var ln net.Listener
+	var err error
+	for try := 0; ; try++ {
+		if ln, err = net.Listen("tcp", addr); err == nil {
+			break
+		}
+		if try >= 180 || !strings.Contains(err.Error(), "address already in use") {
+			return err
+		}
+		time.Sleep(500 * time.Millisecond)
 	}
 	s.ln, s.addr = ln, ln.Addr().String()
 	go func() {
@@ -93,6 +103,9 @@ func (s *sink) up() error {
 			c, err := ln.Accept()
 			if err != nil {
 				return
+			}
+			if tc, ok := c.(*net.TCPConn); ok {
+				_ = tc.SetLinger(0) // closed by this side with a reset: no TIME_WAIT entry per connection
 			}
 			s.mu.Lock()
 			s.conns = append(s.conns, c)
